@@ -38,3 +38,18 @@ Proof. exists (final c2 [MSpawn; TBegin 0; MSpawn]). split; [|split]; vm_compute
 
 Example seq1 : sequential c1 = ([(2%nat, []); (1%nat, [1; 2])], Raised (EAction 1%nat)).
 Proof. vm_compute. reflexivity. Qed.
+
+(* two URIs share one list object (id 0), URI 9 has its own (id 1); the same dictionary is used three times *)
+Example hist1 :
+  let h := [[VInt 1; VInt 2]; [VInt 3]] in
+  let d := Some [(5, 0%nat); (7, 0%nat); (9, 1%nat)] in
+  wf_dict h d /\
+  history_obs h [(7, 2%nat); (5, 1%nat); (9, 3%nat)] [d; d; None] =
+    Some ([[[(1, 2); (0, 1); (0, 2)]; [(1, 1); (0, 1); (0, 2)]; [(1, 3); (0, 3)]];
+           [[(1, 2); (0, 1); (0, 2)]; [(1, 1); (0, 1); (0, 2)]; [(1, 3); (0, 3)]];
+           [[(1, 2)]; [(1, 1)]; [(1, 3)]]],
+          [[(0, 1); (0, 2)]; [(0, 3)]]).
+Proof.
+  split; [|vm_compute; reflexivity].
+  intros u r [H|[H|[H|[]]]]; injection H as <- <-; cbn; lia.
+Qed.
